@@ -143,6 +143,15 @@ def catalogue(T):
             for k, v in (consts or {}).items():
                 t.constants[k] = v
             return t
+
+        def fresh():
+            t = getattr(T, cls)(**ctor)
+            for k, v in (params or {}).items():
+                t.params[k] = v
+            for k, v in (consts or {}).items():
+                t.constants[k] = v
+            return t
+        f.fresh = fresh
         return f
 
     out.append(("Identity", mk("Identity"), np.concatenate([-geo(1e-3, 50, 12)[::-1], geo(1e-3, 50, 12)]), []))
